@@ -272,6 +272,22 @@ class C17(F.Check):
                         ks += [ka, kr]
                         self.mixed.append((tag, ka.name, kr.name, (r1, r2), rc, on, f1, f2, key, expect))
 
+        # ---- implicit Quantity -> duration conversions that change the period AND widen the rep (red-team change C17_r8: the unit
+        # conversion run in the source's narrower rep and widened afterwards).  Reference: chrono's own implicit duration conversion.
+        self.conv = []       # (tag, au, ref, src rep, dst rep, factor, key)
+        for (pn, qn) in (("r3600", "one"), ("one", "milli"), ("milli", "nano"), ("r60", "milli")):
+            f = PERIODS[pn][1] / PERIODS[qn][1]
+            assert f.denominator == 1
+            for (r1, r2) in (("int32_t", "int64_t"), ("int16_t", "int32_t"), ("float", "double"), ("int32_t", "double")):
+                S, D2 = dur(r1, pn), dur(r2, qn)
+                tag = "conv_%s_%s_%s_%s" % (pn, qn, sfx(r1), sfx(r2))
+                key = {"src_period": PERIODS[pn][0], "dst_period": PERIODS[qn][0], "src_rep": r1, "dst_rep": r2, "factor": int(f)}
+                ka = F.Kernel("c17_au_" + tag, r2, [(r1, "x")], "%s d{x}; %s d2 = as_quantity(d); return d2.count();" % (S, D2), key=key,
+                              family="implicit conversion to a wider, finer duration")
+                kr = F.Kernel("c17_ch_" + tag, r2, [(r1, "x")], "%s d{x}; %s d2 = d; return d2.count();" % (S, D2), key=key, family="chrono reference")
+                ks += [ka, kr]
+                self.conv.append((tag, ka.name, kr.name, r1, r2, int(f), key))
+
         # ---- closed facts
         def closed(name, body, expect, note, key):
             k = F.Kernel("c17_cl_" + name, "bool", [], body, key=key, family="closed")
@@ -405,6 +421,31 @@ class C17(F.Check):
             obs.append(F.Ob("mixed:" + tag, vs, fn, routes=F.FP_ROUTES if isfp else F.INT_ROUTES, key=dict(key, F_d=f1, F_q=f2),
                             kernels=[au, rf], timeout=60 if "long double" in (r1, r2) else None,
                             note="chrono reference does not overflow => au mixed operation does not trap and gives the same result"))
+        for tag, au, rf, r1, r2, f, key in self.conv:
+            if K[rf].kernel.dropped:
+                self.inconclusive.append("chrono reference %s does not compile: %s" % (tag, K[rf].kernel.dropped[:160]))
+                continue
+            if K[au].kernel.dropped:
+                ob = F.Ob("skip:" + tag, [], None, key=key)
+                ob.status = "skipped-domain"
+                obs.append(ob)
+                continue
+
+            def vfn(K, x, au=au, rf=rf, r1=r1, r2=r2, f=f):
+                a = K[au](x)
+                r = K[rf](x)
+                pre = T.not_(r.ub)
+                if is_int(r2):
+                    lo, hi = F.ct_range(r2)
+                    pre = T.and_(pre, T.in_range(T.imul(F.ival(r1, x), T.const_int(f)), lo, hi))
+                same = T.eq(a.ret, r.ret)
+                if F.ct_is_float(r2):
+                    same = T.or_(same, T.and_(T.fp_isnan(F.FMT_OF[r2], a.ret), T.fp_isnan(F.FMT_OF[r2], r.ret)))
+                return pre, T.and_(T.not_(a.ub), same)
+            isfp = F.ct_is_float(r1) or F.ct_is_float(r2)
+            obs.append(F.Ob("conv:" + tag, [("x", F.ct_sort(r1))], vfn, routes=F.FP_ROUTES if isfp else F.INT_ROUTES, key=key, kernels=[au, rf],
+                            note="count x factor fits the destination rep => the implicit Quantity -> duration conversion equals chrono's own "
+                                 "duration -> duration conversion (computed in the wider rep) and does not trap"))
         # observation (not a claim): with a NaN count chrono's <= is true and au's is false
         for tag, au, rf, (r1, r2), rc, on, f1, f2, key, expect in self.mixed:
             if on == "le" and r1 == r2 and F.ct_is_float(r1) and key["order"] == "d op q" and (key["period"], key["qunit"]) == ("std::milli", "s") \
